@@ -11,19 +11,28 @@
 (*   "undec" stored bytes were altered and no longer decode                   *)
 (* Unit = TRUE models zstd (a chunk is decoded as a unit at its end),         *)
 (* Unit = FALSE models no compression (bytes stream through).                 *)
+(* The file may be shorter than its index promises (flen cells present out of *)
+(* N*Size): a truncated file, or a re-sealed index claiming more stored bytes *)
+(* than exist.                                                                *)
 (* Variant "orig" is the pinned commit: `!comp_end_dchunk()` treats -1 as     *)
 (* success, the chunk is decoded before it is verified, and random access     *)
-(* does not reset data_eof / data_loc.  Variant "fixed" is the repaired code. *)
+(* does not reset data_eof / data_loc.  Variant "eofok" is the code after the *)
+(* first round of fixes, in which a short read still meant "end of the data"  *)
+(* (finished_rd / finished_dc): TLC exhibits the silent truncation.  Variant  *)
+(* "fixed" is the repaired code: the end of the file inside a chunk is an     *)
+(* error.                                                                     *)
 EXTENDS Naturals, Sequences, FiniteSets, TLC
-CONSTANTS N, Size, MaxRead, Unit, Variant, MaxCalls
+CONSTANTS N, Size, MaxRead, Unit, Variant, MaxCalls, Trunc
 
 VARIABLES status,                  \* per chunk
           idx, loc, data, dc, eof, \* comp.data_idx (0 = NULL, N+1 = past the last), data_loc, compressed / decompressed buffers, data_eof
           off,                     \* file offset in cells (0 .. N*Size)
           hashBad,                 \* the running chunk checksum has seen the bytes of a non-ok chunk / is stale
           pc, want, got, frd, fdc, \* the call in progress
-          out, rets, calls, lastReq
-vars == <<status, idx, loc, data, dc, eof, off, hashBad, pc, want, got, frd, fdc, out, rets, calls, lastReq>>
+          out, rets, calls, lastReq,
+          flen,                    \* cells really present in the file
+          clean, eosLen            \* ghost: only successful sequential reads so far; cells delivered when the end of the stream was first reported
+vars == <<status, idx, loc, data, dc, eof, off, hashBad, pc, want, got, frd, fdc, out, rets, calls, lastReq, flen, clean, eosLen>>
 
 Chunks == 1..N
 Cell(c, k) == <<c, k>>
@@ -34,71 +43,78 @@ Init == /\ status \in [Chunks -> {"ok", "flip", "undec"}]
         /\ idx = 0 /\ loc = 0 /\ data = <<>> /\ dc = <<>> /\ eof = FALSE /\ off = 0 /\ hashBad = FALSE
         /\ pc = "idle" /\ want = 0 /\ got = <<>> /\ frd = FALSE /\ fdc = FALSE
         /\ out = <<>> /\ rets = <<>> /\ calls = 0 /\ lastReq = 0
+        /\ flen \in Trunc /\ clean = TRUE /\ eosLen = 0 - 1
 
 \* ---- the public calls
 StartRead == /\ pc = "idle" /\ calls < MaxCalls
              /\ \E n \in 1..MaxRead : want' = n
              /\ pc' = "loop" /\ got' = <<>> /\ frd' = FALSE /\ fdc' = FALSE /\ calls' = calls + 1 /\ lastReq' = 0
-             /\ UNCHANGED <<status, idx, loc, data, dc, eof, off, hashBad, out, rets>>
+             /\ UNCHANGED <<status, idx, loc, data, dc, eof, off, hashBad, out, rets, flen, clean, eosLen>>
 
 \* zck_get_chunk_data(i): reset and position, then comp_read(size of the chunk)
 StartGet == /\ pc = "idle" /\ calls < MaxCalls
             /\ \E i \in Chunks :
                  /\ idx' = i /\ off' = (i - 1) * Size /\ data' = <<>> /\ dc' = <<>>
                  /\ want' = Size /\ lastReq' = i
-                 /\ IF Variant = "fixed" THEN loc' = 0 /\ eof' = FALSE /\ hashBad' = FALSE
+                 /\ IF Variant # "orig" THEN loc' = 0 /\ eof' = FALSE /\ hashBad' = FALSE
                     ELSE loc' = (IF data = <<>> THEN loc ELSE 0) /\ UNCHANGED <<eof, hashBad>>
             /\ pc' = "loop" /\ got' = <<>> /\ frd' = FALSE /\ fdc' = FALSE /\ calls' = calls + 1
-            /\ UNCHANGED <<status, out, rets>>
+            /\ clean' = FALSE /\ UNCHANGED <<status, out, rets, flen, eosLen>>
 
 Finish(r) == /\ pc' = "idle" /\ rets' = Append(rets, [ret |-> r, req |-> lastReq, cells |-> IF r >= 0 THEN got ELSE <<>>])
              /\ out' = IF r >= 0 THEN out \o got ELSE out
+             /\ clean' = (clean /\ r >= 0)
+             /\ eosLen' = IF clean /\ r = 0 /\ lastReq = 0 /\ eosLen = 0 - 1 THEN Len(out) ELSE eosLen
 
 \* ---- one iteration of comp_read's while(dc < dst_size) loop
 Loop ==
   /\ pc = "loop"
-  /\ IF Len(got) = want THEN Finish(Len(got)) /\ UNCHANGED <<status, idx, loc, data, dc, eof, off, hashBad, want, got, frd, fdc, calls, lastReq>>
+  /\ IF Len(got) = want THEN Finish(Len(got)) /\ UNCHANGED <<status, idx, loc, data, dc, eof, off, hashBad, want, got, frd, fdc, calls, lastReq, flen>>
      ELSE IF dc # <<>> THEN          \* take from the decompressed buffer
           LET k == IF Len(dc) < want - Len(got) THEN Len(dc) ELSE want - Len(got) IN
           /\ got' = got \o SubSeq(dc, 1, k) /\ dc' = SubSeq(dc, k + 1, Len(dc))
-          /\ UNCHANGED <<status, idx, loc, data, eof, off, hashBad, pc, want, frd, fdc, out, rets, calls, lastReq>>
-     ELSE IF fdc \/ eof THEN Finish(Len(got)) /\ UNCHANGED <<status, idx, loc, data, dc, eof, off, hashBad, want, got, frd, fdc, calls, lastReq>>
+          /\ UNCHANGED <<status, idx, loc, data, eof, off, hashBad, pc, want, frd, fdc, out, rets, calls, lastReq, flen, clean, eosLen>>
+     ELSE IF fdc \/ eof THEN Finish(Len(got)) /\ UNCHANGED <<status, idx, loc, data, dc, eof, off, hashBad, want, got, frd, fdc, calls, lastReq, flen>>
      ELSE IF ~Unit /\ data # <<>> THEN    \* nocomp decompress(): the compressed buffer moves to the decompressed one
           /\ dc' = data /\ data' = <<>>
-          /\ UNCHANGED <<status, idx, loc, eof, off, hashBad, pc, want, got, frd, fdc, out, rets, calls, lastReq>>
+          /\ UNCHANGED <<status, idx, loc, eof, off, hashBad, pc, want, got, frd, fdc, out, rets, calls, lastReq, flen, clean, eosLen>>
      ELSE IF idx = 0 THEN                 \* first use: start at the first chunk
           /\ idx' = 1 /\ hashBad' = FALSE
-          /\ UNCHANGED <<status, loc, data, dc, eof, off, pc, want, got, frd, fdc, out, rets, calls, lastReq>>
-     ELSE IF idx > N THEN Finish(Len(got)) /\ UNCHANGED <<status, idx, loc, data, dc, eof, off, hashBad, want, got, frd, fdc, calls, lastReq>>
+          /\ UNCHANGED <<status, loc, data, dc, eof, off, pc, want, got, frd, fdc, out, rets, calls, lastReq, flen, clean, eosLen>>
+     ELSE IF idx > N THEN Finish(Len(got)) /\ UNCHANGED <<status, idx, loc, data, dc, eof, off, hashBad, want, got, frd, fdc, calls, lastReq, flen>>
      ELSE IF loc = Size THEN              \* chunk boundary: comp_end_dchunk
           LET bad == hashBad \/ status[idx] # "ok"
               decoded == [k \in 1..Size |-> IF status[idx] = "ok" THEN Cell(idx, k) ELSE <<idx, k, "BAD">>] IN
-          IF Variant = "fixed"
+          IF Variant # "orig"
           THEN IF bad \/ (Unit /\ status[idx] = "undec")
                THEN /\ Finish(0 - 1) /\ hashBad' = TRUE       \* the checksum is finalised: it stays failing
-                    /\ UNCHANGED <<status, idx, loc, data, dc, eof, off, want, got, frd, fdc, calls, lastReq>>
+                    /\ UNCHANGED <<status, idx, loc, data, dc, eof, off, want, got, frd, fdc, calls, lastReq, flen>>
                ELSE /\ dc' = (IF Unit THEN decoded ELSE dc) /\ data' = <<>> /\ loc' = 0 /\ idx' = idx + 1
                     /\ eof' = (idx + 1 > N) /\ hashBad' = FALSE
-                    /\ UNCHANGED <<status, off, pc, want, got, frd, fdc, out, rets, calls, lastReq>>
+                    /\ UNCHANGED <<status, off, pc, want, got, frd, fdc, out, rets, calls, lastReq, flen, clean, eosLen>>
           ELSE \* orig: decode first, then validate; -1 is not recognised as failure by the caller
                IF Unit /\ status[idx] = "undec"
-               THEN /\ Finish(0 - 1) /\ UNCHANGED <<status, idx, loc, data, dc, eof, off, hashBad, want, got, frd, fdc, calls, lastReq>>
+               THEN /\ Finish(0 - 1) /\ UNCHANGED <<status, idx, loc, data, dc, eof, off, hashBad, want, got, frd, fdc, calls, lastReq, flen>>
                ELSE IF bad
                     THEN /\ dc' = (IF Unit THEN decoded ELSE dc) /\ data' = <<>> /\ hashBad' = TRUE   \* stays on this chunk
-                         /\ UNCHANGED <<status, idx, loc, eof, off, pc, want, got, frd, fdc, out, rets, calls, lastReq>>
+                         /\ UNCHANGED <<status, idx, loc, eof, off, pc, want, got, frd, fdc, out, rets, calls, lastReq, flen, clean, eosLen>>
                     ELSE /\ dc' = (IF Unit THEN decoded ELSE dc) /\ data' = <<>> /\ loc' = 0 /\ idx' = idx + 1
                          /\ eof' = (idx + 1 > N) /\ hashBad' = FALSE
-                         /\ UNCHANGED <<status, off, pc, want, got, frd, fdc, out, rets, calls, lastReq>>
-     ELSE IF frd THEN fdc' = TRUE /\ UNCHANGED <<status, idx, loc, data, dc, eof, off, hashBad, pc, want, got, frd, out, rets, calls, lastReq>>
+                         /\ UNCHANGED <<status, off, pc, want, got, frd, fdc, out, rets, calls, lastReq, flen, clean, eosLen>>
+     ELSE IF frd THEN fdc' = TRUE /\ UNCHANGED <<status, idx, loc, data, dc, eof, off, hashBad, pc, want, got, frd, out, rets, calls, lastReq, flen, clean, eosLen>>
      ELSE \* read from the file: at most the rest of the current chunk, at most dst_size
           LET rs == IF want < Size - loc THEN want ELSE Size - loc
-              avail == N * Size - off
+              avail == IF flen > off THEN flen - off ELSE 0
               rb == IF rs < avail THEN rs ELSE avail
               cells == [k \in 1..rb |-> IF status[ChunkOf(off + k - 1)] = "ok" THEN Cell(ChunkOf(off + k - 1), ((off + k - 1) % Size) + 1)
                                         ELSE <<ChunkOf(off + k - 1), ((off + k - 1) % Size) + 1, "BAD">>] IN
-          /\ data' = data \o cells /\ loc' = loc + rb /\ off' = off + rb /\ frd' = (rb < rs)
-          /\ hashBad' = (hashBad \/ \E k \in 1..rb : ChunkOf(off + k - 1) # idx)      \* bytes of another chunk under this chunk's checksum
-          /\ UNCHANGED <<status, idx, dc, eof, pc, want, got, fdc, out, rets, calls, lastReq>>
+          IF Variant = "fixed" /\ rb = 0
+          THEN \* the file ends inside a chunk the index describes: an error, not the end of the data
+               /\ Finish(0 - 1) /\ UNCHANGED <<status, idx, loc, data, dc, eof, off, hashBad, want, got, frd, fdc, calls, lastReq, flen>>
+          ELSE /\ data' = data \o cells /\ loc' = loc + rb /\ off' = off + rb
+               /\ frd' = (Variant # "fixed" /\ rb < rs)               \* before the fix a short read meant "no more data"
+               /\ hashBad' = (hashBad \/ \E k \in 1..rb : ChunkOf(off + k - 1) # idx)      \* bytes of another chunk under this chunk's checksum
+               /\ UNCHANGED <<status, idx, dc, eof, pc, want, got, fdc, out, rets, calls, lastReq, flen, clean, eosLen>>
 
 Next == StartRead \/ StartGet \/ Loop \/ (pc = "idle" /\ calls = MaxCalls /\ UNCHANGED vars)
 Spec == Init /\ [][Next]_vars /\ WF_vars(Loop)
@@ -108,10 +124,13 @@ IsBad(cell) == Len(cell) = 3
 \* C15: with unit decoding no successful call releases a cell of a chunk whose stored bytes do not match
 NoReleaseBeforeVerify == Unit => \A k \in 1..Len(out) : ~IsBad(out[k])
 \* C14: on a valid file a chunk request returns exactly that chunk, whatever came before
-AllOk == \A c \in Chunks : status[c] = "ok"
+AllOk == (\A c \in Chunks : status[c] = "ok") /\ flen = N * Size          \* a valid file: every chunk intact and all of it there
 HistoryIndependence == AllOk => \A k \in 1..Len(rets) : rets[k].req # 0 => (rets[k].ret = Size /\ rets[k].cells = Content(rets[k].req))
 \* C02 (sequential reads only): what successful reads delivered is a prefix of the content, in order
 SequentialPrefix == (AllOk /\ \A k \in 1..Len(rets) : rets[k].req = 0) =>
                        \A k \in 1..Len(out) : out[k] = Cell(((k - 1) \div Size) + 1, ((k - 1) % Size) + 1)
+\* C02: the end of the stream is reported to a sequential reader only after every cell the index promises was delivered
+\* (a truncated file, or an index promising more than the file holds, is never read "to the end" with success)
+NoSilentTruncation == eosLen # 0 - 1 => eosLen = N * Size
 EveryCallReturns == [](pc = "loop" => <>(pc = "idle"))
 =============================================================================
